@@ -337,6 +337,17 @@ def apply_block_mapping(match, molecule, graph_out, mol_to_out, out_to_mol):
     mol_to_block, blocks_to, references = match
     if graph_out.nrexcl is None:
         graph_out.nrexcl = blocks_to.nrexcl
+    # merge_molecule numbers the residues of the block on from the last
+    # particle of graph_out. That is not always the one with the highest
+    # residue number: a particle added by a modification mapping belongs to an
+    # earlier residue, and the particles of a multi residue block can be
+    # listed in any order.
+    if graph_out.nodes:
+        last_resid = graph_out.nodes[max(graph_out)].get('resid', 1)
+        highest_resid = max(nx.get_node_attributes(graph_out, 'resid').values(),
+                            default=last_resid)
+    else:
+        last_resid = highest_resid = 0
     try:
         # merge_molecule will return a dict mapping the node keys of the
         # added block to the ones in graph_out
@@ -350,6 +361,9 @@ def apply_block_mapping(match, molecule, graph_out, mol_to_out, out_to_mol):
                          set(nx.get_node_attributes(blocks_to, 'resname').values()),
                          type='inconsistent-data')
         raise
+    if highest_resid != last_resid:
+        for out_idx in block_to_out.values():
+            graph_out.nodes[out_idx]['resid'] += highest_resid - last_resid
     # overlap does not have to be a dict, since the values in block_to_out are
     # guaranteed to be unique in graph_out. So we can look them up in
     # mol_to_out
